@@ -1,4 +1,5 @@
 import GoflowModel.Lemmas.Json
+import GoflowModel.Lemmas.JsonString
 /-!
 # C13, JSON clause — a document read with `parse_json` and written back with `json()` is
 JSON-equivalent to the original
@@ -66,6 +67,44 @@ example :
 example : NoDefault (.obj (.cons ['b'] (.num ⟨false, ['1', '5'], 3⟩) (.cons ['a'] (.arr (.cons (.num ⟨true, ['0'], 0⟩) .nil)) .nil))) ∧
     NumsOK (.obj (.cons ['b'] (.num ⟨false, ['1', '5'], 3⟩) (.cons ['a'] (.arr (.cons (.num ⟨true, ['0'], 0⟩) .nil)) .nil))) := by
   simp only [NoDefault, NoDefaultO, NoDefaultL, NumsOK, NumsOKO, NumsOKL, NumOK]
+  decide
+
+/-! ## Strings: the literal that is written denotes the string
+
+`Basic/JsonString`: the string encoder goflow writes JSON with (`jsonx.Marshal`: quotes, backslashes,
+control characters, U+2028 / U+2029 escaped; everything else as it is) and the decoder it reads it
+with (`json.Valid`, then `jsonparser.ParseString`, then `encoding/json` where that refuses: all escapes of
+RFC 8259, surrogate pairs, U+FFFD for lone surrogates; raw control characters and unknown escapes are errors).  Tied to the code by the correspondence `jsonstr` (both
+directions, incl. damaged literals). -/
+
+/-- **Every text survives its JSON form**: reading the literal that is written for a string gives
+that string — any characters, any length. -/
+theorem json_string_roundtrip (s : List Char) : JsonString.decode (JsonString.encode s) = some s :=
+  JsonString.decode_encode s
+
+/-- the readers' other paths, on witnesses: a surrogate pair is one character; a lone high surrogate is
+refused by `jsonparser` and read by `encoding/json` as U+FFFD; `\\/` is a slash; a raw control
+character, an unknown escape and an unterminated literal are errors; and the one place where the two
+readers differ on a literal both accept — two low surrogates in a row are *combined* by `jsonparser`
+into one (invalid, hence replaced) character where `encoding/json` would read two -/
+theorem json_string_decoder_witnesses :
+    JsonString.decode "\"\\ud83d\\ude00\"".toList = some [Char.ofNat 0x1F600] ∧
+    JsonString.decode "\"a\\ud83dz\"".toList = some ['a', Char.ofNat 0xFFFD, 'z'] ∧
+    JsonString.decode "\"\\ude00\"".toList = some [Char.ofNat 0xFFFD] ∧
+    JsonString.decode "\"\\/\"".toList = some ['/'] ∧
+    JsonString.decode ['"', '\x01', '"'] = none ∧
+    JsonString.decode "\"\\x41\"".toList = none ∧
+    JsonString.decode "\"abc".toList = none ∧
+    JsonString.decode "\"\\ude00\\ude00\"".toList = some [Char.ofNat 0xFFFD] ∧
+    JsonString.decodeStd "\"\\ude00\\ude00\"".toList = some [Char.ofNat 0xFFFD, Char.ofNat 0xFFFD] := by
+  decide
+
+/-- what is escaped when writing: the quote, the backslash, control characters, the two line
+separators — and nothing else (`<`, `>`, `&` are written as they are: HTML escaping is off) -/
+theorem json_string_encoder_witnesses :
+    JsonString.encode "a\"b\\c".toList = "\"a\\\"b\\\\c\"".toList ∧
+    JsonString.encode ['\n', '\x01', '\x7f'] = "\"\\n\\u0001\x7f\"".toList ∧
+    JsonString.encode [Char.ofNat 0x2028, '<', '>', '&', 'é'] = "\"\\u2028<>&é\"".toList := by
   decide
 
 end GoflowModel.Props.C13Json
